@@ -1335,6 +1335,7 @@ int32 matrixResumeSession(ssl_t *ssl)
     psTime_t accessTime;
     unsigned char *id;
     uint32 i;
+    int32 ageMsecs;
 
     if (!(ssl->flags & SSL_FLAGS_SERVER))
     {
@@ -1358,10 +1359,15 @@ int32 matrixResumeSession(ssl_t *ssl)
     Expiration is done on daily basis (86400 seconds)
  */
     psGetTime(&accessTime, ssl->userPtr);
+    /* The age is a signed 32-bit number of milliseconds: it is negative for
+        an entry older than 2^31 ms or after a backward clock step.  Treat
+        that as expired, too. */
+    ageMsecs = psDiffMsecs(g_sessionTable[i].startTime, accessTime,
+            ssl->userPtr);
     if ((Memcmp(g_sessionTable[i].id, id,
              (uint32) min(ssl->sessionIdLen, SSL_MAX_SESSION_ID_SIZE)) != 0) ||
-        (psDiffMsecs(g_sessionTable[i].startTime,   accessTime, ssl->userPtr) >
-                SSL_SESSION_ENTRY_LIFE) || (g_sessionTable[i].majVer != psEncodeVersionMaj(GET_NGTD_VER(ssl)))
+        ageMsecs < 0 || ageMsecs > SSL_SESSION_ENTRY_LIFE ||
+        (g_sessionTable[i].majVer != psEncodeVersionMaj(GET_NGTD_VER(ssl)))
             || (g_sessionTable[i].minVer != psEncodeVersionMin(GET_NGTD_VER(ssl))))
     {
         psUnlockMutex(&g_sessionTableLock);
